@@ -239,11 +239,13 @@ func (it *TxnIterator) advance() {
 				continue
 			}
 		}
+		// The newest visible version decides this user key, also when it is a tombstone
+		// or expired: remember the key first so older versions stay shadowed.
+		it.lastKey = append(it.lastKey[:0], userKey...)
 		if !it.materializeEntry(entry, cf, userKey, version) {
 			it.iitr.Next()
 			continue
 		}
-		it.lastKey = append(it.lastKey[:0], userKey...)
 		it.valid = true
 		if it.txn != nil {
 			encoded := kv.EncodeKeyWithCF(it.entry.CF, it.entry.Key)
